@@ -180,6 +180,63 @@ pub fn c07(opts: &Opts, out: &mut Out) {
             }
             classes.insert((n, m, t.min(2), "reference-prover"));
         }
+        // a LYING prover: the transcript absorbs the statement's promises, the arithmetic is done under other ones (so
+        // that a value below its promise still decomposes into bits). The result proves the wrong relation and must be
+        // refused — in particular for commitments the verifier might be tempted to treat specially (the identity, `p·h`)
+        for (n, m, t, shape) in [(2usize, 1usize, 1usize, "identity"), (8, 1, 2, "identity"), (64, 1, 1, "identity"), (8, 2, 1, "identity-second"), (8, 1, 1, "ordinary"), (4, 2, 2, "ordinary"), (8, 1, 3, "zero-mask")] {
+            let mut liar = rrun::random_inst(n, m, m, t, 4, false, &mut rng);
+            let mut arith: Vec<u64> = liar.promises.iter().map(|p| p.unwrap_or(0)).collect();
+            let j = m - 1;
+            match shape {
+                "identity" | "identity-second" => {
+                    liar.values[j] = 0;
+                    liar.blindings[j] = vec![Scalar::ZERO; t];
+                    liar.promises[j] = Some(1);
+                    arith[j] = 0;
+                },
+                "zero-mask" => {
+                    liar.values[j] = 2;
+                    liar.blindings[j] = vec![Scalar::ZERO; t];
+                    liar.promises[j] = Some(3);
+                    arith[j] = 1;
+                },
+                _ => {
+                    liar.values[j] = 1;
+                    liar.promises[j] = Some(if n >= 2 { 3 } else { 1 });
+                    arith[j] = 0;
+                },
+            }
+            let key = format!("lying prover ({}): n={} m={} t={} values {:?} absorbed promises {:?} arithmetic promises {:?}", shape, n, m, t, liar.values, liar.promises, arith);
+            let Some(pb) = crate::scen_wire::reference_prove_with(&mut drv, &liar, Some(&arith), &mut rng) else {
+                out.oracle("C07:reference-prover-ran", false, &key, "the independent prover failed");
+                continue;
+            };
+            let Ok(pb) = rrun::Proof::from_bytes(&pb) else {
+                out.oracle("C07:reference-prover-ran", false, &key, "the independent prover's output does not decode");
+                continue;
+            };
+            // control: the same prover, telling the truth about a statement with the arithmetic promises, is accepted
+            let mut honest = liar.clone();
+            honest.promises = arith.iter().map(|p| Some(*p)).collect();
+            if let Some(ph) = crate::scen_wire::reference_prove(&mut drv, &honest, &mut rng).and_then(|b| rrun::Proof::from_bytes(&b).ok()) {
+                out.oracle("C07:reference-prover-ran", rrun::verify_one(&honest, &honest.statement(), &ph, VerifyAction::VerifyOnly).is_ok(), &key, "control proof of the independent prover rejected");
+            }
+            let Ok(stmt) = liar.statement_with(liar.cap, None) else { continue };
+            let ordinary = rrun::random_inst(n, m, m, t, 5, false, &mut rng);
+            let ord_proof = ordinary.prove(&mut rng).expect("prove");
+            for a in [VerifyAction::VerifyOnly, VerifyAction::RecoverAndVerify] {
+                let r = rrun::verify_one(&liar, &stmt, &pb, a);
+                out.oracle("C07:value-below-promise-refused", r.is_err(), &format!("{} alone action={:?}", key, a), "a proof made under other promises than the statement's was accepted: the value is below its promise");
+                for order in [[0usize, 1], [1, 0]] {
+                    let stmts: Vec<rrun::Stmt> = order.iter().map(|i| if *i == 0 { stmt.clone() } else { ordinary.statement() }).collect();
+                    let proofs: Vec<rrun::Proof> = order.iter().map(|i| if *i == 0 { pb.clone() } else { ord_proof.clone() }).collect();
+                    let mut ts: Vec<_> = order.iter().map(|i| if *i == 0 { liar.transcript() } else { ordinary.transcript() }).collect();
+                    let r = rrun::Proof::verify_batch(&mut ts, &stmts, &proofs, a);
+                    out.oracle("C07:value-below-promise-refused", r.is_err(), &format!("{} in a pair at position {} action={:?}", key, order.iter().position(|i| *i == 0).unwrap(), a), "a batch with a proof made under other promises than the statement's was accepted");
+                }
+            }
+            classes.insert((n, m, t.min(2), "lying-prover"));
+        }
     }
     out.stat("substitutions", nsub);
     out.stat("distinct_classes", classes.len());
